@@ -1,3 +1,4 @@
+//@module verif_common
 // Shared helpers for the Kani contract modules (compiled inside the real crate as
 // `crate::verif_common`, only under cfg(kani)).
 //
@@ -6,6 +7,12 @@
 // evidence of every check that uses it (the engine scans for `kani::stub(` lines).
 
 #![allow(dead_code)]
+// vacuity guards: a cover that must be SATISFIED.  Compiled out (env VERIF_NO_COVER, set only by the
+// engine's counterexample re-run) because Kani's concrete playback emits a single test per harness and
+// prefers a satisfied cover over the failed assertion.
+macro_rules! vcover {
+    ($($t:tt)*) => { if option_env!("VERIF_NO_COVER").is_none() { kani::cover!($($t)*); } };
+}
 
 use crate::diagnostic::{Diagnostic, RootEmitter, WriteError};
 use crate::error::ErrorReported;
@@ -50,4 +57,240 @@ fn canary_must_pass() {
 fn canary_must_fail() {
     let x: u8 = kani::any();
     assert!(crate::bitset::BitSet32::from_mask(x as u32).mask() != 7);
+}
+
+// ---------------------------------------------------------------------------------------
+// C03: shared body of the instruction-header obligations (one instantiation per format, in
+// the format's own verif module because the hook structs are private).
+//
+// Contract, from the property text: "Whenever a compile command exits successfully, the file it
+// wrote can be read back by truth ... and what is read back equals, field for field, what the
+// source requested ... If a requested value does not fit the field that stores it, compilation
+// fails with a diagnostic instead of storing a different value."
+//   write_instr(w, i) == Ok  ==>  read_instr(bytes(w)) == Instr(i')  and  i' == i  (stored fields)
+//   and bytes(w).len() == instr_size(i)   (the size the offset/label pass relies on)
+// Rejecting (Err) is always allowed by this obligation; a cover checks that Ok is reachable.
+
+use crate::llir::{InstrFormat, RawInstr, ReadInstr};
+use crate::io::{BinReader, BinWriter};
+
+/// Which header fields the format stores (the others are fixed to RawInstr::DEFAULTS in the input).
+#[derive(Copy, Clone)]
+pub struct Stored {
+    pub param_mask: bool,
+    pub difficulty: bool,
+    pub extra_arg: bool,
+    pub pop_and_arg_count: bool,
+    /// the reader is allowed to classify an instruction as MaybeTerminal (it then still carries the instruction)
+    pub maybe_terminal: bool,
+    /// param_mask is written as a constant and so not compared (EoSD ECL)
+    pub ignore_param_mask: bool,
+}
+
+pub fn arb_header(stored: Stored, args_blob: Vec<u8>) -> RawInstr {
+    RawInstr {
+        time: kani::any(),
+        opcode: kani::any(),
+        param_mask: if stored.param_mask || stored.ignore_param_mask { kani::any() } else { RawInstr::DEFAULTS.param_mask },
+        difficulty: if stored.difficulty { kani::any() } else { RawInstr::DEFAULTS.difficulty },
+        extra_arg: if stored.extra_arg { Some(kani::any()) } else { None },
+        pop: if stored.pop_and_arg_count { kani::any() } else { 0 },
+        arg_count: if stored.pop_and_arg_count { kani::any() } else { 0 },
+        args_blob,
+    }
+}
+
+/// Obligation (A): round trip with a blob of concrete length N and symbolic contents.
+pub fn instr_round_trip<const N: usize>(fmt: &dyn InstrFormat, stored: Stored, extra_assume: impl Fn(&RawInstr) -> bool) {
+    let emitter = noop_emitter();
+    let blob: [u8; N] = kani::any();
+    let instr = arb_header(stored, blob.to_vec());
+    kani::assume(extra_assume(&instr));
+
+    let mut w = BinWriter::from_writer(&emitter, "x", std::io::Cursor::new(Vec::<u8>::with_capacity(N + 24)));
+    let res = fmt.write_instr(&mut w, &emitter, &instr);
+    if let Err(e) = res {
+        // "compilation fails with a diagnostic instead of storing a different value": allowed
+        core::mem::forget(e);
+        core::mem::forget(w);
+        core::mem::forget(instr);
+        core::mem::forget(emitter);
+        return;
+    }
+    vcover!(true, "the writer accepts some instruction");
+    let bytes: Vec<u8> = w.into_inner().into_inner();
+    assert!(bytes.len() == fmt.instr_size(&instr), "written length equals instr_size");
+    assert!(bytes.len() == fmt.instr_header_size() + N, "instr_size is header + blob");
+
+    let mut r = BinReader::from_reader(&emitter, "x", std::io::Cursor::new(bytes));
+    let back = match fmt.read_instr(&mut r, &emitter) {
+        Ok(ReadInstr::Instr(i2)) => i2,
+        Ok(ReadInstr::MaybeTerminal(i2)) => { assert!(stored.maybe_terminal, "unexpected MaybeTerminal"); i2 },
+        Ok(ReadInstr::Terminal) => { assert!(false, "instruction read back as the end-of-script marker"); return; },
+        Ok(ReadInstr::EndOfFile) => { assert!(false, "instruction read back as end of file"); return; },
+        Err(e) => { core::mem::forget(e); assert!(false, "written instruction cannot be read back"); return; },
+    };
+    assert!(back.time == instr.time, "time read back differs from the requested time");
+    assert!(back.opcode == instr.opcode, "opcode read back differs from the requested opcode");
+    if !stored.ignore_param_mask {
+        assert!(back.param_mask == instr.param_mask, "param_mask read back differs");
+    }
+    assert!(back.difficulty == instr.difficulty, "difficulty read back differs");
+    assert!(back.extra_arg == instr.extra_arg, "extra_arg read back differs");
+    assert!(back.pop == instr.pop && back.arg_count == instr.arg_count, "pop/arg_count read back differs");
+    assert!(back.args_blob.len() == N, "argument blob length read back differs");
+    let mut i = 0;
+    while i < N {
+        assert!(back.args_blob[i] == instr.args_blob[i], "argument bytes read back differ");
+        i += 1;
+    }
+    // everything was consumed: the next instruction starts where this one ends
+    assert!(r.into_inner().position() as usize == fmt.instr_header_size() + N, "reader consumed exactly the instruction");
+    core::mem::forget(back);
+    core::mem::forget(instr);
+    core::mem::forget(emitter);
+}
+
+/// How the size field is stored: byte offset, width, and what it counts.
+#[derive(Copy, Clone)]
+pub struct SizeField { pub offset: usize, pub width: usize, pub counts_header: bool, pub reader_max: usize }
+
+/// Obligation (B): write side only, blob length fully symbolic (0..=max_len), contents zero.
+/// If the writer accepts, the size field decodes to the true size *as the reader will interpret it*
+/// and the number of bytes written is instr_size; otherwise it must have returned Err.
+pub fn instr_size_field(fmt: &dyn InstrFormat, stored: Stored, sf: SizeField, max_len: usize) {
+    let emitter = noop_emitter();
+    let n: usize = kani::any();
+    kani::assume(n <= max_len);
+    let mut instr = arb_header(stored, vec![0u8; n]);
+    // header values that always fit, so that only the size can be the reason for rejection
+    instr.time = 0;
+    instr.opcode = 1;
+    if stored.extra_arg { instr.extra_arg = Some(0); }
+    let mut w = BinWriter::from_writer(&emitter, "x", std::io::Cursor::new(Vec::<u8>::new()));
+    let res = fmt.write_instr(&mut w, &emitter, &instr);
+    if let Err(e) = res {
+        core::mem::forget(e);
+        core::mem::forget(w);
+        core::mem::forget(instr);
+        core::mem::forget(emitter);
+        return;
+    }
+    vcover!(n == 0, "accepts an empty blob");
+    vcover!(n == 12, "accepts a 12-byte blob");
+    let bytes: Vec<u8> = w.into_inner().into_inner();
+    let header = fmt.instr_header_size();
+    assert!(bytes.len() == header + n, "written length equals header + blob");
+    assert!(fmt.instr_size(&instr) == header + n, "instr_size is header + blob");
+    let want = if sf.counts_header { header + n } else { n };
+    let mut got: usize = 0;
+    let mut k = 0;
+    while k < sf.width {
+        got |= (bytes[sf.offset + k] as usize) << (8 * k);
+        k += 1;
+    }
+    assert!(got == want, "stored size field differs from the true size");
+    assert!(want <= sf.reader_max, "stored size exceeds what the reader interprets correctly");
+    core::mem::forget(bytes);
+    core::mem::forget(instr);
+    core::mem::forget(emitter);
+}
+
+/// The end-of-script marker written by write_terminal_instr is recognised by read_instr.
+pub fn terminal_is_recognised(fmt: &dyn InstrFormat, maybe_terminal: bool, trailing_zeros: usize) {
+    let emitter = noop_emitter();
+    let mut w = BinWriter::from_writer(&emitter, "x", std::io::Cursor::new(Vec::<u8>::with_capacity(32)));
+    fmt.write_terminal_instr(&mut w, &emitter).ok().expect("writing the marker cannot fail");
+    let mut bytes: Vec<u8> = w.into_inner().into_inner();
+    let mut k = 0;
+    while k < trailing_zeros { bytes.push(0); k += 1; }
+    let mut r = BinReader::from_reader(&emitter, "x", std::io::Cursor::new(bytes));
+    match fmt.read_instr(&mut r, &emitter) {
+        Ok(ReadInstr::Terminal) => {},
+        Ok(ReadInstr::MaybeTerminal(i)) => { assert!(maybe_terminal, "unexpected MaybeTerminal"); core::mem::forget(i); },
+        Ok(ReadInstr::Instr(i)) => { core::mem::forget(i); assert!(false, "end-of-script marker read back as an instruction"); },
+        Ok(ReadInstr::EndOfFile) => assert!(false, "end-of-script marker read back as end of file"),
+        Err(e) => { core::mem::forget(e); assert!(false, "end-of-script marker cannot be read back"); },
+    }
+    core::mem::forget(emitter);
+}
+
+// ---------------------------------------------------------------------------------------
+// Modular treatment of the two header-field guards (src/llir/mod.rs).  Their emission path (a
+// diagnostic rendered next to live io::Error values) makes CBMC diverge inside the round-trip
+// harnesses (measured: 9 of 9 time out at 300 s), so the round trips use these stubs, which keep
+// the decision logic and drop only the diagnostic; obligations c03_guard_* prove, on the REAL
+// functions with the real emitter, that the real decision is the same as the stub's.
+
+/// Accepting half of the guard's contract: "requires value fits; ensures Ok(value unchanged)".
+/// Paths on which the value does not fit are cut here (kani::assume(false)); that the REAL guard
+/// reports an error on exactly those paths is obligation c03_guard_*.  A writer that stores a
+/// field without going through the guard keeps the non-fitting values and fails its round trip.
+pub fn stub_fit_instr_field<T, U>(_emitter: &dyn crate::diagnostic::Emitter, _instr: &RawInstr, _field: &str, value: T) -> Result<U, ErrorReported>
+where
+    T: Copy + std::fmt::Display,
+    U: TryFrom<T>,
+{
+    match U::try_from(value) {
+        Ok(x) => Ok(x),
+        Err(_) => { kani::assume(false); loop {} },
+    }
+}
+
+pub fn stub_forbid_reserved_opcode(_emitter: &dyn crate::diagnostic::Emitter, instr: &RawInstr, reserved: crate::raw::Opcode) -> Result<(), ErrorReported> {
+    kani::assume(instr.opcode != reserved);
+    Ok(())
+}
+
+fn tiny_instr() -> RawInstr {
+    RawInstr { time: kani::any(), opcode: kani::any(), args_blob: Vec::new(), ..RawInstr::DEFAULTS }
+}
+
+macro_rules! guard_harness {
+    ($name:ident, $t:ty, $u:ty) => {
+        #[kani::proof]
+        #[kani::unwind(4)]
+        #[kani::stub(alloc::fmt::format, crate::verif_common::stub_fmt_format)]
+        #[kani::stub(crate::error::ErrorReported::new, crate::verif_common::stub_error_reported_new)]
+        fn $name() {
+            let emitter = noop_emitter();
+            let instr = tiny_instr();
+            let v: $t = kani::any();
+            let real: Result<$u, ErrorReported> = crate::llir::fit_instr_field(&emitter, &instr, "field", v);
+            // spec: the value is stored unchanged if and only if it is representable; else an error
+            let fits = (v as i128) >= (<$u>::MIN as i128) && (v as i128) <= (<$u>::MAX as i128);
+            match real {
+                Ok(x) => { assert!(fits, "accepted a value that does not fit"); assert!((x as i128) == (v as i128), "stored a different value"); },
+                Err(e) => { assert!(!fits, "rejected a value that fits"); core::mem::forget(e); },
+            }
+            core::mem::forget(instr);
+            core::mem::forget(emitter);
+        }
+    };
+}
+//@ C03 c03_guard_i32_i16 quick default fit_instr_field::<i32,i16> (time fields): Ok(v) exactly when v fits in 16 signed bits, and then unchanged; otherwise an error is reported (real function, real emitter)
+guard_harness!(c03_guard_i32_i16, i32, i16);
+//@ C03 c03_guard_i16_i8 quick default fit_instr_field::<i16,i8> (signed-byte opcodes of MSG / ANM v0): accepted exactly when representable, stored unchanged
+guard_harness!(c03_guard_i16_i8, i16, i8);
+//@ C03 c03_guard_usize_u8 quick default fit_instr_field::<usize,u8> (byte-sized size fields): accepted exactly when representable, stored unchanged
+guard_harness!(c03_guard_usize_u8, usize, u8);
+//@ C03 c03_guard_usize_u16 quick default fit_instr_field::<usize,u16> (16-bit size fields): accepted exactly when representable, stored unchanged
+guard_harness!(c03_guard_usize_u16, usize, u16);
+//@ C03 c03_guard_usize_i16 quick default fit_instr_field::<usize,i16> (size fields that are read back signed): accepted exactly when representable, stored unchanged
+guard_harness!(c03_guard_usize_i16, usize, i16);
+//@ C03 c03_guard_reserved_opcode quick default forbid_reserved_opcode: an error exactly when the opcode equals the reserved end-of-script value
+#[kani::proof]
+#[kani::unwind(4)]
+#[kani::stub(alloc::fmt::format, crate::verif_common::stub_fmt_format)]
+#[kani::stub(crate::error::ErrorReported::new, crate::verif_common::stub_error_reported_new)]
+fn c03_guard_reserved_opcode() {
+    let emitter = noop_emitter();
+    let instr = tiny_instr();
+    let reserved: u16 = kani::any();
+    match crate::llir::forbid_reserved_opcode(&emitter, &instr, reserved) {
+        Ok(()) => assert!(instr.opcode != reserved, "accepted the reserved opcode"),
+        Err(e) => { assert!(instr.opcode == reserved, "rejected an ordinary opcode"); core::mem::forget(e); },
+    }
+    core::mem::forget(instr);
+    core::mem::forget(emitter);
 }
